@@ -925,6 +925,12 @@ static int send_frame(const struct websocket *s, uint8_t *payload, size_t length
 	uint8_t *payload_comp = NULL;
 	size_t length_comp = length;
 	uint8_t rsv = 0x00;
+
+	if (unlikely(s->connection == NULL)) {
+		/* websocket_close() already released the connection. */
+		return -1;
+	}
+
 	if (s->extension_compression.accepted && (type < WS_CLOSE_FRAME)) {
 		payload_comp = malloc(length * 2);
 		length_comp = websocket_compress(s, payload_comp, payload, length);
@@ -1070,4 +1076,5 @@ void websocket_close(struct websocket *ws, enum ws_status_code status_code)
 		free_compression(ws);
 	}
 	free_connection(ws->connection);
+	ws->connection = NULL;
 }
